@@ -163,6 +163,26 @@ def run_gmm(case):
                         if not np.isfinite(bic):
                             res.violate(f"gmm[{_pl(shift, scale)},k={k}]:bic", f"bic = {bic!r}", cc)
                         res.outcome((d, n, layout, sep, shift, scale, wname, ct, k, n_init), nontrivial=(wname != "uniform" or k > 1))
+                        # the fit may depend on the weights only through their ratios: tiny / huge totals (unnormalised importance weights)
+                        if ok and k <= 2 and n_init == 1 and ct == "full":
+                            for cfac in (1e-12, 1e12):
+                                g4 = GaussianMixture(n_components=k, covariance_type=ct, n_init=1)
+                                with np.errstate(all="ignore"):
+                                    with OwnedRandom(17 + env.SEED):
+                                        try:
+                                            g4.fit(X, w * cfac)
+                                        except Exception as e:
+                                            res.violate(f"gmm[{_pl(shift, scale)},k={k}]:weight-scale:raises", f"fit with weights x{cfac:g} raised {e!r}", cc)
+                                            continue
+                                res.evals += 1
+                                sc_ = max(float(np.max(X.max(0) - X.min(0))), 1e-9 * (float(np.max(np.abs(X))) + 1.0))  # degenerate (constant) data: rounding scale of the values
+                                big = (np.asarray(gm.weights_) > 1e-3) & (np.asarray(g4.weights_) > 1e-3)  # a component of negligible weight has an arbitrary mean
+                                dm_ = (np.max(np.abs(np.asarray(gm.means_)[big] - np.asarray(g4.means_)[big])) / sc_) if np.any(big) else 0.0
+                                dw_ = np.max(np.abs(np.asarray(gm.weights_) - np.asarray(g4.weights_)))
+                                if not (np.isfinite(dm_) and np.isfinite(dw_)) or dm_ > 1e-6 or dw_ > 1e-6:
+                                    res.violate(f"gmm[{_pl(shift, scale)},k={k}]:weight-scale", f"fit(X, w) and fit(X, {cfac:g}*w) differ: means by {dm_:.3g} of the data scale, component weights by {dw_:.3g} "
+                                                f"(d={d}, n={n}, layout={layout}, weights={wname}, {ct})", cc)
+                                    break
                         # replication equivalence for integer weights
                         if ok and wname in ("int125", "int-blob") and n_init == 1 and n <= 200:
                             reps = w.astype(int)
